@@ -206,13 +206,17 @@ Post(choice, g) ==
                                               /\ h' = g /\ UNCHANGED last
                                               /\ callDecomp' = TRUE /\ callJac' = (theta # "small")
 
-Callback(flag, choice, g) ==
+\* xm: where the run continues from - the callback owns x and may move it back inside the step it was handed when it
+\* returns ModifiedSolution (a restart at an interior point); otherwise xm = x
+Callback(flag, choice, g, xm) ==
     /\ pc = "cb"
     /\ ncb' = ncb + 1
+    \* (a restart inside the step that landed on xend is not modelled: the code would leave through its `last` exit)
+    /\ IF flag = "Modified" THEN xold < xm /\ xm <= x /\ (last => xm = x) /\ x' = xm ELSE xm = x /\ UNCHANGED x
     /\ CASE flag = "Interrupt" -> Finish("UserInterrupt") /\ UNCHANGED <<h, reject, last, callJac, callDecomp, sing>>
          [] flag = "Modified"  -> pc' = "mod" /\ UNCHANGED <<status, h, reject, last, callJac, callDecomp, sing>>
          [] OTHER              -> Post(choice, g)
-    /\ UNCHANGED <<P, x, xold, xph, first, theta, it, nJac, nLu, nOde, total, acc, rej, jacAt, evalMax>>
+    /\ UNCHANGED <<P, xold, xph, first, theta, it, nJac, nLu, nOde, total, acc, rej, jacAt, evalMax>>
 
 ModEval(choice, g) ==
     /\ pc = "mod"
